@@ -1219,6 +1219,12 @@ class World(object):
         if f != 'invert' and 'slot' in bd:
             b = self.ref(bd['slot'])
             st.srcs.append(b)
+        if f != 'invert' and b is None and 'val' in bd and op.get('reflected') and bd['val'][0] in ('n', 'a'):
+            # <NumPy integer> OP fxp is dispatched by NumPy (np.bitwise_xor through __array_ufunc__), not
+            # by the reflected operator: the NumPy route, with that route's result register
+            if self.plan_register(st, self.obj(a).config.array_op_out) is not None:
+                st.pure = False
+            st.extra['numpy_left_operand'] = True
         yield
         ao = self.obj(a)
         if f == 'invert':
@@ -1235,6 +1241,7 @@ class World(object):
             else:
                 x = (bv ^ ao) if refl else (ao ^ bv)
         self.finish_new(st, x, origin='bitwise')
+        self.register_written(st)
 
     def op_shift(self, st):
         op = st.op
